@@ -1,7 +1,7 @@
 (* C07 - the callback state is a faithful snapshot usable as a crash checkpoint.
    Restates Proofs/DriverSnapshot.snapshot_is_result (driver model: coq/Model/Driver.v). *)
 From Coq Require Import List ZArith Bool String Floats.PrimFloat.
-From LBFGSB Require Import Base.Res Model.SF Model.FloatVec Model.Driver Proofs.DriverSnapshot.
+From LBFGSB Require Import Base.Res Base.Sim Model.SF Model.FloatVec Model.Driver Proofs.DriverSnapshot Proofs.DriverInert.
 Import ListNotations.
 Open Scope Z_scope.
 
@@ -23,7 +23,14 @@ Theorem C07_loop_prefix : forall U K c fuel ft gt s r tr snap b,
                   fields_of s_k snap /\ s_nit s_k = r_nit snap.
 Proof. exact loop_snapshot. Qed.
 
+(* the presence of a callback that returns False does not alter the run: same outcome, and the same trace of user-visible
+   events once the callback events themselves are erased *)
+Theorem C07_callback_inert : forall U K c cbf, (forall s, cbf s = Ok false) -> u_cb U = None ->
+  sim not_cb (run (with_cb (Some cbf) U) K c) (run U K c).
+Proof. exact inert_run. Qed.
+
 Print Assumptions C07_snapshot_is_result.
+Print Assumptions C07_callback_inert.
 
 (* Non-vacuity: a 3-iteration run with a recording callback; the state of iteration 2 is the result of the maxiter = 2 run. *)
 Definition U7 : user :=
